@@ -166,7 +166,7 @@ void cmi_coroutine_context_init(struct cmi_coroutine *cp)
     /* Set the XMM status register MXCSR, exception on invalid and div zero */
     stkptr -= 8u;
     // *(uint64_t *)(stkptr + 4) = 0x1f80u;
-    *(uint64_t *)(stkptr + 4) = 0x1d00u;
+    *(uint32_t *)(stkptr + 4) = 0x1d00u;
     *(uint32_t *)stkptr = 0u;
 
     /* Point RBP to start of stack frame */
